@@ -1,11 +1,33 @@
 """Checks beyond C20 are registered here as they are built."""
 
+HIST_NOTE = ("Trusts: the library itself as reference (fresh object, pristine forked process) - "
+             "a differential oracle that cannot see a defect present in fresh objects too; Pillow, "
+             "pypng, xml.etree and decimal run for real and are assumed deterministic; the tiny "
+             "abstract model in sim/histsim.py (Model) that tracks public calls only. Histories are "
+             "sampled (stratified over all ordered triples of a 14-op alphabet, seeded beyond), "
+             "not enumerated.")
+
+
 def extend(register, PENDING):
+    register("C11", "histsim",
+      "deterministic simulation: seeded operation-and-fault histories on 1-3 objects from cold/warm/pre-used process caches, every compile refined against a fresh object in a pristine forked process, canary epilogue",
+      "Seeded search over call histories (add_data, clear, make, every attribute assignment, version read, best_fit, every renderer with injected stream faults, caller scribbling on returned matrices, other objects compiling) starting from cold, warm or pre-used process-wide caches. After every operation that compiles (explicitly or lazily) the aged object's symbol, resulting version, raised error and rendered bytes are compared with what a brand-new object built from the model's (data, version, level, mask) does in a process that has produced nothing; a canary object per touched version is compiled at the end in the aged process. This is the level the property needs - it quantifies over histories, which only a controlled sequence generator with a history-free reference can reach - and it is sampling, not proof.",
+      HIST_NOTE, "DESIGN.md 3.2")
+    register("C15", "histsim",
+      "deterministic simulation: simulated terminal streams (tty flag, write/flush faults, stdout substitution) inside seeded object histories; output read back by an independent glyph/escape reader",
+      "Every print_ascii (plain, invert, tty) and print_tty call inside seeded histories writes to a simulated terminal; the recorded text is turned back into a matrix by a small reader that knows only the half-block glyph and ANSI colour conventions and must equal the object's symbol framed by the configured border (one module for print_tty). Lazy compilation is checked against the pristine fresh-object reference; non-tty refusal must precede any write or flush; calls aborted by injected write errors must leave no residue for the next call.",
+      HIST_NOTE + " The glyph reader (sim/readback.py) is trusted; the spare half text row is unconstrained.",
+      "DESIGN.md 3.4")
+    register("C16", "histsim",
+      "deterministic simulation: get_matrix() invariants (size, centre, frame, lazy compile) evaluated at every call inside seeded object histories with caller scribbling and border reassignment",
+      "Every get_matrix() call in every explored history is checked cell by cell: square of side 17+4v+2*border, centre equal to the object's symbol, frame all light, border 0 equal to the bare symbol, and - when data changed since the last compile - the symbol equal to the pristine fresh-object reference. Borders 0-9 are assigned at construction and mid-history, callers scribble on returned matrices between calls.",
+      HIST_NOTE, "DESIGN.md 3.3")
+    register("C18", "histsim",
+      "deterministic simulation: boundary and non-integer values offered through constructor and mid-history assignment inside seeded object histories; accept/reject decisions and a monitor on every output-producing call",
+      "Seeded values around every boundary (version -1,0,1,40,41,255; mask -1,0,7,8,'3',2.0,[1]; border -4..9; box_size -10..10) are offered at construction and by assignment at arbitrary points of a history. Out-of-range values must raise ValueError/TypeError at that point (box_size at the latest in make_image) and must not take effect (read-back plus later compiles matching the unchanged model); in-range values must be accepted and honoured by later output.",
+      HIST_NOTE + " In-range is the property's own statement (sim/histsim.py in_range).",
+      "DESIGN.md 3.5")
     PENDING.update({
-        "C11": "claimed by design (DESIGN.md 3.2); engine histsim not yet committed",
-        "C15": "claimed by design (DESIGN.md 3.4); engine histsim not yet committed",
-        "C16": "claimed by design (DESIGN.md 3.3); engine histsim not yet committed",
         "C17": "claimed by design (DESIGN.md 4.2); engine clisim not yet committed",
-        "C18": "claimed by design (DESIGN.md 3.5); engine histsim not yet committed",
         "C19": "claimed by design (DESIGN.md 4.1); engine threadsim not yet committed",
     })
